@@ -5,8 +5,9 @@ import sys
 
 
 def main(argv):
-    if os.environ.get('PYTHONHASHSEED') != '0':
-        os.environ['PYTHONHASHSEED'] = '0'
+    want = os.environ.get('VERIF_HASHSEED', '0')       # the self-test runs worlds under another hash seed on purpose
+    if os.environ.get('PYTHONHASHSEED') != want:
+        os.environ['PYTHONHASHSEED'] = want
         os.execv(sys.executable, [sys.executable, '-m', 'dsim.cli'] + argv)
     from . import runner
     if not argv:
@@ -26,6 +27,9 @@ def main(argv):
     if cmd == 'selftest-determinism':
         from . import selftest
         return selftest.determinism(argv[1:])
+    if cmd == 'digests':
+        from . import selftest
+        return selftest.digests_cmd(argv[1:])
     if cmd == 'debug':
         # debug <harness-or-replay json> [step cap]: run in-process, dump sim-thread stacks at the end
         import sys as _s, traceback, json as _j
